@@ -170,6 +170,12 @@ func RunVerify(c *world.Case) Outcome {
 	if c.Form != "raw" && c.Form != "" {
 		msg = MessageFor(c.Form, c.Quote)
 	}
+	if len(c.Msg) > 0 {
+		msg = &pb.QuoteV4{}
+		if proto.Unmarshal(c.Msg, msg) != nil {
+			msg = &pb.QuoteV4{}
+		}
+	}
 	pv, st := Guard(func() {
 		if msg != nil {
 			err = verify.TdxQuote(msg, o)
